@@ -40,23 +40,37 @@ def rat(x):
 
 
 # --------------------------------------------------------------------------------------
-def check_ctor(ctx, st):
+# order-preserving affine embeddings x -> a + b*x of the table's integer lattice into the reals: the
+# constructors' decisions depend on the order of their arguments only, whatever the unit and offset
+# (lengths in metres next to 1, micrometre-wide windows around 1e4, ...)
+EMBEDDINGS = [(0.0, 1.0), (1.0, 2.0 ** -20), (0.0, 1e-9), (1e4, 0.01), (-3.0, 250.0)]
+
+
+def check_ctor(ctx, st, emb=(0.0, 1.0)):
     c, out = st["cur"]["case"], st["cur"]["out"]
     kind = c["kind"]
     key = tuple(sorted((k, str(v)) for k, v in c.items()))
-    ctx.case(("ctor", key), nontrivial=True)
+    ctx.case(("ctor", key, emb), nontrivial=True)
+    A, B = emb
+
+    def ext(v):                         # value
+        return -np.inf if v == NEG else (np.inf if v == POS else A + B * float(v))
+
+    def wid(v):                         # width (standard deviation)
+        return -np.inf if v == NEG else (np.inf if v == POS else B * float(v))
+    SC = max(abs(A), abs(B))
 
     def viol(clause, detail):
-        ctx.violation("ctor/%s/%s" % (kind, clause), dict(detail, case=c))
+        ctx.violation("ctor/%s/%s%s" % (kind, clause, "" if emb == (0.0, 1.0) else "/embedded"), dict(detail, case=c, embedding=list(emb)))
         return False
     try:
         if kind == "Uniform":
-            kw = {} if c["g"] == NOGUESS else {"guess": c["g"]}
+            kw = {} if c["g"] == NOGUESS else {"guess": ext(c["g"])}
             obj = prior.Uniform(ext(c["lo"]), ext(c["hi"]), **kw)
         elif kind == "Gaussian":
-            obj = prior.Gaussian(ext(c["mu"]), ext(c["sd"]))
+            obj = prior.Gaussian(ext(c["mu"]), wid(c["sd"]))
         elif kind == "BoundedGaussian":
-            obj = prior.BoundedGaussian(ext(c["mu"]), ext(c["sd"]), ext(c["lo"]), ext(c["hi"]))
+            obj = prior.BoundedGaussian(ext(c["mu"]), wid(c["sd"]), ext(c["lo"]), ext(c["hi"]))
         else:
             re = prior.Uniform(1.0, 2.0) if c["re"] == "free" else 1.5
             im = prior.Gaussian(0.1, 0.01) if c["im"] == "free" else 0.25
@@ -70,6 +84,8 @@ def check_ctor(ctx, st):
         return viol("accepted_nonsense" if accepted else "rejected_valid",
                     {"impl_accepts": accepted, "spec_accepts": out["accept"]})
     if not accepted:
+        return True
+    if kind == "Complex" and emb != (0.0, 1.0):
         return True
     if kind == "Complex":
         g = obj.guess
@@ -86,23 +102,26 @@ def check_ctor(ctx, st):
         if c["re"] == "fixed" and s.real != 1.5 or c["im"] == "fixed" and s.imag != 0.25:
             return viol("complex_sample", {"sample": repr(s)})
         return True
-    eg = float(rat(out["guess"]))
-    if abs(obj.guess - eg) > 1e-12:
+    eg = A + B * float(rat(out["guess"]))
+    if kind == "Uniform" and c["lo"] == NEG and c["hi"] == POS and c["g"] == NOGUESS:
+        eg = 0.0           # the unbounded prior's default guess is the number 0, in any unit
+    if abs(obj.guess - eg) > 1e-12 * SC:
         return viol("guess", {"impl": obj.guess, "spec": eg})
-    if not abs(obj.unscale(obj.scale(1.2345)) - 1.2345) < 1e-12:
+    tv = A + B * 1.2345
+    if not abs(obj.unscale(obj.scale(tv)) - tv) < 1e-12 * SC:
         return viol("scale_unscale", {})
     if kind in ("Uniform", "BoundedGaussian"):
         lo, hi = ext(c["lo"]), ext(c["hi"])
-        pts_in = [float(p) for p in out["support"]]
-        pts_out = [float(p) for p in out["outside"]]
+        pts_in = [A + B * float(p) for p in out["support"]]
+        pts_out = [A + B * float(p) for p in out["outside"]]
         for b in (lo, hi):                      # points just beyond finite bounds
             if np.isfinite(b):
                 pts_in.append(b)
                 pts_out += [b - 1e-9, b + 1e-9] if False else []
         if np.isfinite(lo):
-            pts_out.append(lo - 1e-9)
+            pts_out.append(lo - 1e-9 * B if A == 0 else lo - 1e-3 * B)
         if np.isfinite(hi):
-            pts_out.append(hi + 1e-9)
+            pts_out.append(hi + 1e-9 * B if A == 0 else hi + 1e-3 * B)
         improper = kind == "Uniform" and out["density"][1] == 0
         for p in pts_in:
             # improper (half-infinite) uniform: a finite constant inside is all that is asserted
@@ -112,9 +131,9 @@ def check_ctor(ctx, st):
             if not (obj.lnprob(p) == -np.inf and obj.prob(p) == 0):
                 return viol("outside_is_zero", {"p": p, "lnprob": obj.lnprob(p), "prob": obj.prob(p)})
         if kind == "Uniform" and out["density"][1] != 0:
-            d = float(rat(out["density"]))
+            d = float(rat(out["density"])) / B
             for p in pts_in:
-                if abs(obj.prob(p) - d) > 1e-12 or abs(obj.lnprob(p) - math.log(d)) > 1e-12:
+                if abs(obj.prob(p) - d) > 1e-9 * d or abs(obj.lnprob(p) - math.log(d)) > 1e-9:
                     return viol("density", {"p": p, "prob": obj.prob(p), "lnprob": obj.lnprob(p), "spec": d})
         if np.isfinite(lo) and np.isfinite(hi):
             np.random.seed(11)
@@ -125,8 +144,8 @@ def check_ctor(ctx, st):
                 if not shape_ok or np.any(a < lo) or np.any(a > hi):
                     return viol("sample_in_support", {"size": size, "sample": a.tolist()})
     else:
-        for p in (-3.0, 0.0, 0.5, 2.0):
-            if abs(obj.lnprob(p) - math.log(obj.prob(p))) > 1e-10:
+        for p in (A - 3.0 * B, A, A + 0.5 * B, A + 2.0 * B):
+            if abs(obj.lnprob(p) - math.log(obj.prob(p))) > 1e-10 * max(1.0, abs(obj.lnprob(p))):
                 return viol("lnprob_is_log_prob", {"p": p})
     return True
 
@@ -322,8 +341,9 @@ def run(ctx):
                        "and finiteness asserted there", "KS threshold at p = 1e-9"]
     g = ctx.tlc_graph("PriorAlgebra", "PriorAlgebra_ctor.cfg")
     for st in g.states.values():
-        if check_ctor(ctx, st):
-            ctx.trace_ok()
+        for emb in EMBEDDINGS:
+            if check_ctor(ctx, st, emb):
+                ctx.trace_ok()
     ctx.sample({"ctor_case": st["cur"]["case"], "spec_outcome": {k: (sorted(v) if isinstance(v, frozenset) else v)
                                                                  for k, v in st["cur"]["out"].items()}})
     g = ctx.tlc_graph("PriorAlgebra", "PriorAlgebra_alg.cfg",
